@@ -244,13 +244,13 @@ func verifSpecCL(lowered string) primitive.ConsistencyLevel {
 
 // Session lookup/creation touches the session table and the network, never the client's counters.
 //@ func proxy.Proxy.findSession [C07]
-//@   requires p != nil && inv(p)
+//@   requires p != nil && inv(p) && p.cluster != nil
 //@   ensures inv(p)
 //@   ensures session-key: result1 == nil ==> result0 != nil && result0.config.Version == version && result0.config.Keyspace == keyspace && result0.config.Compression == compression
 //@   modifies p.sessions[*]
 
 //@ func proxy.Proxy.maybeCreateSession [C07]
-//@   requires p != nil && inv(p)
+//@   requires p != nil && inv(p) && p.cluster != nil
 //@   ensures inv(p)
 //@   ensures session-key: result1 == nil ==> result0 != nil && result0.config.Version == version && result0.config.Keyspace == keyspace && result0.config.Compression == compression
 //@   modifies p.sessions[*]
@@ -320,7 +320,7 @@ func verifSpecCL(lowered string) primitive.ConsistencyLevel {
 // client.execute: either one error frame to the client (no usable session) or one request started,
 // carrying the client's stream id, version and connection.
 //@ func proxy.client.execute [C01, C02, C03, C09]
-//@   requires c != nil && raw != nil && raw.Header != nil && body != nil && c.proxy != nil && c.conn != nil && c.codec != nil && inv(c.proxy)
+//@   requires c != nil && raw != nil && raw.Header != nil && body != nil && c.proxy != nil && c.conn != nil && c.codec != nil && inv(c.proxy) && c.proxy.cluster != nil
 //@   event c.$executed
 //@   ensures one-outcome: (c.$sent - old(c.$sent)) + ($reqStarted - old($reqStarted)) == 1
 //@   ensures c.$sent >= old(c.$sent) && $reqStarted >= old($reqStarted)
@@ -534,7 +534,7 @@ func verifSpecCL(lowered string) primitive.ConsistencyLevel {
 //@ func proxy.client.handlePrepare [C01, C09]
 //@   requires prepared-table: preparedOK(c) [C10]
 //@   ensures prepared-table: preparedOK(c) [C10]
-//@   requires c != nil && raw != nil && raw.Header != nil && body != nil && c.proxy != nil && c.conn != nil && c.codec != nil && inv(c.proxy) && c.preparedSystemQuery != nil && !$selReached
+//@   requires c != nil && raw != nil && raw.Header != nil && body != nil && c.proxy != nil && c.conn != nil && c.codec != nil && inv(c.proxy) && c.proxy.cluster != nil && c.preparedSystemQuery != nil && !$selReached
 //@   after parser.IsQueryHandled#1 set $qhHandled = result0
 //@   ensures local: $qhHandled ==> c.$executed == old(c.$executed) && c.$sent == old(c.$sent) + 1 && $reqStarted == old($reqStarted)
 //@   ensures forwarded: !$qhHandled ==> c.$executed == old(c.$executed) + 1
